@@ -129,6 +129,46 @@ def sweep_solver(db, rep, tier):
         except OutOfBounds as e:
             rep.fail('A.idx.bound', 'solver/' + label, e.where or 'src/SQuIDS.cpp', 'every index inside the extent of its block', str(e))
     rep.floor('A.idx.bound.solver', n, 8)
+    # function-local static buffers outlive the call and the solver object: the queries are run on two solvers of
+    # different dimension that share those statics, smaller first and larger first
+    import squidsmodel as sm
+    queries = (('GetExpectationValue', 3), ('GetExpectationValue', 5), ('GetExpectationValueD', 3), ('GetExpectationValueD', 5), ('GetIntermediateState', 2))
+    for name, npar in queries:
+        f = db.one('SQuIDS', 'squids::SQuIDS::' + name, npar, (lambda g: 'expectationValueDBuffer' not in ''.join(p['t'] for p in g['params'])))
+        for dims in ((2, 3), (3, 2)):
+            n += 1
+            statics = {}
+            try:
+                for nsun in dims:
+                    classes = [['X0', 'Q'], ['X1']]
+                    hooks = sm.SquidsHooks(nsun, order=sm.OrderOracle(classes))
+                    hooks.statics = statics
+                    hooks.numeric_terms = True
+                    this, hooks, it = sm.new_solver(db, 2, nsun, 1, 0, hooks=hooks, ti=Poly.const(0))
+                    xv = this.value.fields['x'].value
+                    for k in range(2):
+                        xv.fields['data'].value.cell(k).value = Poly.var('X%d' % k)
+                    sysreg = hooks.system_region
+                    for k in range(sysreg.size):
+                        sysreg.cell(k).value = Poly.const(0.25 + 0.0625 * k)  # values are irrelevant to the extents
+                    this.value.fields['t'].value = Poly.const(1.5)
+                    opc, _ = make_suv('op', nsun, 'o', content=lambda k: Poly.const(0.5 - 0.03125 * k))
+                    npair = nsun * (nsun - 1) // 2
+                    if name == 'GetIntermediateState':
+                        args = [0, Poly.var('Q')]
+                    elif name == 'GetExpectationValue':
+                        args = [opc, 0, 0]
+                    else:
+                        args = [opc, 0, Poly.var('Q')]
+                    if npar == 5:
+                        args += [Poly.const(1e30), make_vector('avr', npair, lambda k: 0)]
+                    it.call(f, this, args)
+                rep.ok('A.idx.bound')
+            except Thrown:
+                rep.ok('A.idx.bound')
+            except OutOfBounds as e:
+                rep.fail('A.idx.bound', 'solver/%s(%d parameters)/dimension %d then %d' % (name, npar, dims[0], dims[1]), e.where or 'src/SQuIDS.cpp',
+                         'every index inside the extent of its block, also when a solver of another dimension was queried before on the same thread', str(e))
 
 
 def run(db, rep, tier):
